@@ -63,6 +63,9 @@ SPECIAL_DOCS = [
     {"title": "corr temporal", "name": "corr1", "correlation": {"type": "temporal", "rules": ["base1", "base2"], "timespan": "5m", "group-by": ["usr"],
                                                                  "aliases": {"usr": {"base1": "user", "base2": "account"}}}},
     {"title": "corr extended", "correlation": {"type": "temporal_ordered", "rules": ["base1", "base2"], "timespan": "1h", "condition": "base1 and not base2"}},
+    {"title": "corr ext no rules list", "correlation": {"type": "temporal", "timespan": "1h", "condition": "(base2 and base1) or (base2 and them_rule) or base1 or base2"}},
+    {"title": "them", "name": "them_rule_alias_unused", "logsource": {"category": "test"}, "detection": {"s": {"q": 1}, "condition": "s"}},
+    {"title": "named third", "name": "them_rule", "logsource": {"category": "test", "product": "p"}, "detection": {"s": {"z": 1}, "condition": "s"}},
     {"title": "corr count", "correlation": {"type": "event_count", "rules": ["corr1"], "timespan": "1d", "condition": {"gte": 2}, "generate": True}},
     {"title": "filter any", "logsource": {"category": "test"}, "filter": {"rules": "any", "fa": {"f": "noise"}, "fb": {"g|contains": "n"}, "condition": "not 1 of them"}},
     {"title": "filter named", "logsource": {"product": "p"}, "filter": {"rules": ["base1"], "sel": {"user": "svc"}, "condition": "not sel"}},
